@@ -21,8 +21,34 @@ BATCHES = {
     "b2": ["CCC(=O)OC>>CO", "CCBr.[OH-]>>CCO"],
     "b3": ["CC(=O)OC>>CC(=O)O", "CC>>CCC"],
 }
-CFGS = {"t0": {"threshold": 0, "col": "reaction"}, "t5": {"threshold": 0.5, "col": "reaction"},
-        "t9": {"threshold": 0.9, "col": "reaction"}, "c0": {"threshold": 0, "col": "rxn"}}
+# rows that carry further columns (a previous run's output fed back in, a CSV with metadata): the columns the
+# pipeline passes through (confidence, rules, issue, solved_by) are part of what a run returns
+def _extra(tag, k):
+    return {"confidence": round(0.1 * (k + 1) + (0.011 if tag == "x" else 0.022), 3), "rules": ["prior-" + tag],
+            "issue": "prior issue " + tag, "solved_by": "prior-run-" + tag, "note": "n%s%d" % (tag, k),
+            "id": "row-%s-%d" % (tag, k)}
+
+
+ROWS_EXTRA = {"b1x": ("b1", "x"), "b1y": ("b1", "y"), "b3x": ("b3", "x")}
+# bs: batch_size of the call (None = the whole input is one batch); keycfg: the part of the configuration the
+# result depends on (the batch size only decides how the input is cut)
+CFGS = {"t0": {"threshold": 0, "col": "reaction", "bs": 2, "keycfg": "t0"},
+        "t5": {"threshold": 0.5, "col": "reaction", "bs": 2, "keycfg": "t5"},
+        "t9": {"threshold": 0.9, "col": "reaction", "bs": 2, "keycfg": "t9"},
+        "c0": {"threshold": 0, "col": "rxn", "bs": 2, "keycfg": "c0"},
+        "n0": {"threshold": 0, "col": "reaction", "bs": None, "keycfg": "t0"},
+        "n5": {"threshold": 0.5, "col": "reaction", "bs": None, "keycfg": "t5"}}
+
+
+def rows_of(name, col):
+    if name in ROWS_EXTRA:
+        base, tag = ROWS_EXTRA[name]
+        return [dict(_extra(tag, k), **{col: s}) for k, s in enumerate(BATCHES[base])]
+    return [{col: s} for s in BATCHES[name]]
+
+
+def chunks_of(batches, cfgname):
+    return [[b] for b in batches] if CFGS[cfgname]["bs"] else [list(batches)]
 
 
 def sig(row, col):
@@ -41,7 +67,9 @@ class Runner:
     def run(self, batches, cfgname, cache_dir, trace=None):
         cfg = CFGS[cfgname]
         col = cfg["col"]
-        if col not in self.bal:
+        self.nrun = getattr(self, "nrun", 0) + 1
+        if col not in self.bal or self.nrun % 3 == 0:
+            # entries are shared between Balancer objects (and processes): every third run uses a new one
             self.bal[col] = self.Balancer(reaction_col=col, n_jobs=1)
         b = self.bal[col]
         b.confidence_threshold = cfg["threshold"]
@@ -49,7 +77,7 @@ class Runner:
         b.cache_dir = cache_dir
         inputs = []
         for name in batches:
-            inputs += [{col: s} for s in BATCHES[name]]
+            inputs += rows_of(name, col)
         stats = {}
         if trace:
             os.environ["SYNRBL_VERIF_TRACE"] = trace
@@ -62,7 +90,7 @@ class Runner:
         fd = os.dup(2)
         os.dup2(self.devnull.fileno(), 2)
         try:
-            rows = b.rebalance(inputs, output_dict=True, stats=stats, batch_size=2)
+            rows = b.rebalance(inputs, output_dict=True, stats=stats, batch_size=cfg["bs"])
         except Exception as ex:
             err = repr(ex)
         finally:
@@ -90,6 +118,16 @@ def main():
     ref = {}
     for b, c in keys:
         ref[(b, c)] = R.run([b], c, None)
+    refs = {}
+
+    def reference(batches, cfgname):
+        """the same call with caching disabled (memoised)"""
+        k = (tuple(batches), cfgname)
+        if k not in refs:
+            refs[k] = ref[(batches[0], cfgname)] if len(batches) == 1 and (batches[0], cfgname) in ref \
+                else R.run(list(batches), cfgname, None)
+        return refs[k]
+
     # 2. observe one real cached run per key: file operations and the entry's bytes
     ops_seen = {}
     entry = {}
@@ -133,6 +171,8 @@ def main():
     nid = [0]
 
     def emit(e):
+        e["chunks"] = chunks_of(e["batches"], e["cfg"])
+        e["keycfg"] = CFGS[e["cfg"]]["keycfg"]
         if any("terminated by timeout" in r for r in e.get("returned", []) + e.get("expected", [])):
             return   # a wall-clock budget was hit in one of the two runs: not reproducible
         nid[0] += 1
@@ -175,12 +215,8 @@ def main():
         for run in item["runs"]:
             install(item["state"], n)
             res = R.run(run["batches"], run["cfg"], cdir, trace)
-            exp_rows, exp_stats = [], {}
-            for b in run["batches"]:
-                rr = ref[(b, run["cfg"])]
-                exp_rows += rr["rows"]
-                for k, v in rr["stats"].items():
-                    exp_stats[k] = exp_stats.get(k, 0) + v
+            rr = reference(run["batches"], run["cfg"])
+            exp_rows, exp_stats = rr["rows"], rr["stats"]
             emit({"ev": "run", "kind": "state", "installed": desc, "cfg": run["cfg"], "batches": run["batches"],
                   "returned": res["rows"], "expected": exp_rows, "stats": res["stats"], "exp_stats": exp_stats,
                   "raised": res["raised"], "hits": res["hits"]})
@@ -190,12 +226,8 @@ def main():
         os.makedirs(cdir)
         for step, run in enumerate(h):
             res = R.run(run["batches"], run["cfg"], cdir, trace)
-            exp_rows, exp_stats = [], {}
-            for b in run["batches"]:
-                rr = ref[(b, run["cfg"])]
-                exp_rows += rr["rows"]
-                for k, v in rr["stats"].items():
-                    exp_stats[k] = exp_stats.get(k, 0) + v
+            rr = reference(run["batches"], run["cfg"])
+            exp_rows, exp_stats = rr["rows"], rr["stats"]
             emit({"ev": "run", "kind": "history", "installed": {"history_step": step}, "cfg": run["cfg"],
                   "batches": run["batches"], "returned": res["rows"], "expected": exp_rows, "stats": res["stats"],
                   "exp_stats": exp_stats, "raised": res["raised"], "hits": res["hits"],
